@@ -165,6 +165,9 @@ func vUnshare()       {}
 // vGuard declares that *field is protected by *mutex (lockset monitor of the engine); natively a no-op.
 func vGuard(field any, mutex any) {}
 
+// vGuardAny: like vGuard, but the mutex held in read mode also covers updates (fields updated atomically under a read lock).
+func vGuardAny(field any, mutex any) {}
+
 // vGuardMap declares that map m is protected by *mutex (lockset monitor); natively a no-op.
 func vGuardMap(m any, mutex any) {}
 
